@@ -787,3 +787,279 @@ Proof.
   - exists 0, false. split; [reflexivity|]. split; [|discriminate].
     intros _ q Hq [HM _]. exact (enf_min_bytes_false b k0 m Em q Hq HM).
 Qed.
+
+(* ---------- walking back from a needle: DecodeLastRuneInString at a boundary ---------- *)
+
+Lemma enf_nth_firstn {A} (l : list A) (d : A) : forall n i, (i < n)%nat -> nth i (firstn n l) d = nth i l d.
+Proof.
+  induction l as [|x l IH]; intros n i H; [rewrite firstn_nil; reflexivity|].
+  destruct n as [|n]; [lia|]. destruct i as [|i]; [reflexivity|]. cbn [firstn nth]. apply IH. lia.
+Qed.
+
+Lemma enf_dlr_start_le s e : en_dlr_start s e <= e - 2.
+Proof. unfold en_dlr_start. repeat break_if; lia. Qed.
+
+(* a rune decoded with width >= 2 is valid: its bytes are its encoding, whatever follows *)
+Lemma enf_decode_rune_wide p c w :
+  decode_rune p = (c, w) -> (2 <= w)%nat ->
+  valid_rune c = true /\ Z.of_nat w = rune_len c /\ firstn w p = encode c.
+Proof.
+  intros H Hw. destruct p as [|b0 t]; [cbn in H; injection H as _ <-; lia|].
+  destruct (decode_rune_cases b0 t) as [C|C].
+  - rewrite H in C. injection C as _ ->. lia.
+  - rewrite H in C. exact C.
+Qed.
+
+Lemma enf_encode_lead c : valid_rune c = true -> exists x rest, encode c = x :: rest /\ is_cont x = false.
+Proof.
+  intros Hv. unfold valid_rune, is_surrogate, max_rune in Hv. unfold encode, is_surrogate, max_rune, is_cont.
+  repeat break_if; try lia; eexists; eexists; (split; [reflexivity|lia]).
+Qed.
+
+Lemma enf_decode_rune_complete t r' size :
+  decode_rune (firstn size t) = (r', size) -> (2 <= size)%nat -> decode_rune t = (r', size).
+Proof.
+  intros H Hs. destruct (enf_decode_rune_wide _ _ _ H Hs) as (Hv & Hl & Hf).
+  rewrite firstn_firstn, Nat.min_id in Hf.
+  rewrite <- (firstn_skipn size t), Hf, decode_rune_encode by exact Hv. f_equal. lia.
+Qed.
+
+Lemma enf_dlr_step b k c w :
+  nth_error (decode b) k = Some (c, w) ->
+  snd (en_decode_last_rune (firstn (boundary b (S k)) b)) = Z.of_nat w.
+Proof.
+  intros Hn. destruct (enb_boundary_step b k c w Hn) as (HS & Hw & Hr & Hne).
+  assert (Hk : (k < length (decode b))%nat) by (apply nth_error_Some; congruence).
+  set (p := boundary b k) in *. set (e := boundary b (S k)) in *.
+  pose proof (boundary_le b (S k)) as Hle. fold e in Hle.
+  set (s := firstn e b).
+  assert (Hlen : length s = e) by (unfold s; apply firstn_length_le; exact Hle).
+  assert (Hnth : forall i, (i < e)%nat -> nth i s 0 = nth i b 0) by (intros; apply enf_nth_firstn; assumption).
+  assert (Hcont : forall i, (p < i < e)%nat -> is_cont (nth i b 0) = true).
+  { intros i Hi. destruct (skipn p b) as [|b0 t] eqn:Es; [congruence|].
+    pose proof (enf_decode_rune_cont b0 t (i - p)) as Hc. rewrite Hr in Hc. cbn [snd] in Hc.
+    specialize (Hc ltac:(lia)). rewrite <- Es, enf_nth_skipn in Hc.
+    replace (p + (i - p))%nat with i in Hc by lia. exact Hc. }
+  assert (Hsk : forall st, skipn st s = firstn (e - st) (skipn st b)) by (intros; unfold s; apply skipn_firstn_comm).
+  unfold en_decode_last_rune. unfold zlen. rewrite Hlen.
+  replace (Z.of_nat e =? 0) with false by lia.
+  replace (Z.of_nat e - 1) with (Z.of_nat (e - 1)) by lia. rewrite enb_at_nat, Hnth by lia.
+  destruct (nth (e - 1) b 0 <? 128) eqn:Elast.
+  - cbn [snd]. destruct (Nat.eq_dec w 1) as [->|Hw1]; [reflexivity|].
+    specialize (Hcont (e - 1)%nat ltac:(lia)). unfold is_cont in Hcont. lia.
+  - destruct (Nat.eq_dec w 1) as [->|Hw1].
+    + (* an invalid byte, or a byte >= 128 forming a rune alone: whatever start is tried, width 1 *)
+      pose proof (enf_dlr_start_le s (Z.of_nat e)) as Hst.
+      set (start0 := en_dlr_start s (Z.of_nat e)) in *.
+      set (start := if start0 <? 0 then 0 else start0).
+      assert (Hstart : 0 <= start <= Z.of_nat e - 1) by (unfold start; break_if; lia).
+      replace start with (Z.of_nat (Z.to_nat start)) by lia. rewrite enb_from_nat.
+      set (st := Z.to_nat start) in *. rewrite Hsk.
+      destruct (decode_rune (firstn (e - st) (skipn st b))) as [r' size] eqn:Ed.
+      destruct (Z.of_nat st + Z.of_nat size =? Z.of_nat e) eqn:Esum; cbn [negb snd]; [|reflexivity].
+      destruct (Nat.le_gt_cases 2 size) as [G|L]; [exfalso|].
+      * replace (e - st)%nat with size in Ed by lia.
+        pose proof (enf_decode_rune_complete _ _ _ Ed G) as Hfull.
+        destruct (enf_decode_rune_wide _ _ _ Hfull G) as (Hv & _ & Hf).
+        destruct (enf_encode_lead r' Hv) as (x & rest & Hx & Hxc).
+        assert (Lst : (st < length b)%nat) by lia.
+        rewrite (enf_skipn_cons b 0 st Lst), Hx in Hf.
+        assert (Hb : nth st b 0 = x).
+        { destruct size as [|size]; [lia|]. cbn [firstn] in Hf. congruence. }
+        destruct (enf_noncont_boundary b st Lst ltac:(rewrite Hb; exact Hxc)) as [k' [Hk' Hbk']].
+        pose proof (enf_decode_nth b k' Hk') as Hn'. rewrite <- Hbk', Hfull in Hn'.
+        destruct (enb_boundary_step b k' r' size Hn') as (HS' & _).
+        assert (Hee : boundary b (S k') = e) by lia.
+        assert (k' = k).
+        { pose proof (enb_boundary_inj_le b (S k') (S k) ltac:(lia) ltac:(lia) ltac:(fold e; lia)).
+          pose proof (enb_boundary_inj_le b (S k) (S k') ltac:(lia) ltac:(lia) ltac:(fold e; lia)). lia. }
+        subst k'. fold p in Hbk'. lia.
+      * assert (size <> 0)%nat.
+        { intros ->. lia. }
+        lia.
+    + (* a valid multi-byte rune: the backward scan stops at its lead byte *)
+      destruct (enf_decode_rune_wide _ _ _ Hr ltac:(lia)) as (Hv & Hl & Hf).
+      destruct (enf_encode_lead c Hv) as (x & rest & Hx & Hxc).
+      assert (Lp : (p < length b)%nat) by lia.
+      assert (Hlead : is_cont (nth p b 0) = false).
+      { rewrite (enf_skipn_cons b 0 p Lp), Hx in Hf. destruct w as [|w']; [lia|]. cbn [firstn] in Hf.
+        replace (nth p b 0) with x by congruence. exact Hxc. }
+      assert (Hstart : en_dlr_start s (Z.of_nat e) = Z.of_nat p).
+      { unfold en_dlr_start, en_rune_start. cbv zeta.
+        assert (Hw3 : w = 2%nat \/ w = 3%nat \/ w = 4%nat) by lia.
+        destruct Hw3 as [ -> | [ -> | -> ] ].
+        - replace (Z.of_nat e - 2) with (Z.of_nat p) by lia.
+          rewrite enb_at_nat, Hnth, Hlead by lia. cbn [negb]. repeat break_if; lia.
+        - replace (Z.of_nat e - 2) with (Z.of_nat (p + 1)) by lia.
+          replace (Z.of_nat e - 3) with (Z.of_nat p) by lia.
+          rewrite !enb_at_nat, !Hnth, Hlead, (Hcont (p + 1)%nat) by lia. cbn [negb]. repeat break_if; lia.
+        - replace (Z.of_nat e - 2) with (Z.of_nat (p + 2)) by lia.
+          replace (Z.of_nat e - 3) with (Z.of_nat (p + 1)) by lia.
+          replace (Z.of_nat e - 4) with (Z.of_nat p) by lia.
+          rewrite !enb_at_nat, !Hnth, Hlead, (Hcont (p + 1)%nat), (Hcont (p + 2)%nat) by lia.
+          cbn [negb]. repeat break_if; lia. }
+      rewrite Hstart. replace (Z.of_nat p <? 0) with false by lia. rewrite enb_from_nat, Hsk.
+      replace (e - p)%nat with w by lia.
+      rewrite decode_rune_firstn by (rewrite Hr; cbn [snd]; lia). rewrite Hr.
+      replace (Z.of_nat p + Z.of_nat w =? Z.of_nat e) with true by lia. reflexivity.
+Qed.
+
+(* stringFixedDistanceCandidateStart from boundary kj back d runes, never below the start boundary k0 *)
+Lemma enf_candidate_start_spec b k0 : forall d kj,
+  (k0 <= kj <= length (decode b))%nat ->
+  en_candidate_start b (Z.of_nat (boundary b k0)) (Z.of_nat (boundary b kj)) d =
+  if (k0 + d <=? kj)%nat then Some (Z.of_nat (boundary b (kj - d))) else None.
+Proof.
+  induction d as [|d IH]; intros kj Hkj.
+  - cbn [en_candidate_start]. replace (k0 + 0 <=? kj)%nat with true by (symmetry; apply Nat.leb_le; lia).
+    rewrite Nat.sub_0_r. reflexivity.
+  - cbn [en_candidate_start].
+    destruct (Nat.eq_dec kj k0) as [->|Hne].
+    + rewrite Z.leb_refl. replace (k0 + S d <=? k0)%nat with false by (symmetry; apply Nat.leb_gt; lia). reflexivity.
+    + pose proof (enb_boundary_lt b k0 kj ltac:(lia) ltac:(lia)) as Hlt.
+      replace (Z.of_nat (boundary b kj) <=? Z.of_nat (boundary b k0)) with false by lia.
+      destruct kj as [|k']; [lia|].
+      destruct (nth_error (decode b) k') as [[c w]|] eqn:En; [|apply nth_error_None in En; lia].
+      rewrite enb_upto_nat, (enf_dlr_step b k' c w En).
+      destruct (enb_boundary_step b k' c w En) as (HS & Hw & _).
+      replace (Z.of_nat w =? 0) with false by lia.
+      replace (Z.of_nat (boundary b (S k')) - Z.of_nat w) with (Z.of_nat (boundary b k')) by lia.
+      rewrite IH by lia. replace (S k' - S d)%nat with (k' - d)%nat by lia.
+      destruct (k0 + d <=? k')%nat eqn:E1; destruct (k0 + S d <=? S k')%nat eqn:E2; try reflexivity;
+        apply Nat.leb_le in E1 || apply Nat.leb_gt in E1; apply Nat.leb_le in E2 || apply Nat.leb_gt in E2; lia.
+Qed.
+
+(* what the three fixed-distance loops do with a needle found at boundary kj *)
+Lemma enf_candidate_some b k0 d kj m c q :
+  (k0 <= kj <= length (decode b))%nat -> (k0 <= q <= length (decode b))%nat -> (kj <= q + d)%nat ->
+  en_candidate_start b (Z.of_nat (boundary b k0)) (Z.of_nat (boundary b kj)) d = Some c ->
+  c <= Z.of_nat (boundary b q) /\
+  (enf_min_fact m (runes_of b) q -> en_has_min_bytes b c m = true).
+Proof.
+  intros Hkj Hq Hle H. rewrite enf_candidate_start_spec in H by exact Hkj.
+  destruct (k0 + d <=? kj)%nat eqn:E; [|discriminate H]. apply Nat.leb_le in E. injection H as <-.
+  split.
+  - pose proof (enb_boundary_mono b (kj - d) q ltac:(lia)). lia.
+  - intros HM. apply (enf_min_bytes b (kj - d) q m); [lia|exact HM].
+Qed.
+
+Lemma enf_candidate_none b k0 d kj q :
+  (k0 <= kj <= length (decode b))%nat -> (k0 <= q)%nat ->
+  en_candidate_start b (Z.of_nat (boundary b k0)) (Z.of_nat (boundary b kj)) d = None ->
+  (kj < q + d)%nat.
+Proof.
+  intros Hkj Hq H. rewrite enf_candidate_start_spec in H by exact Hkj.
+  destruct (k0 + d <=? kj)%nat eqn:E; [discriminate H|]. apply Nat.leb_gt in E. lia.
+Qed.
+
+(* ---------- stringFixedDistanceSetFilter ---------- *)
+
+Definition enf_sc_pred (sc : en_scanner) (x : Z) : bool :=
+  if sc_use_range sc then (sc_first sc <=? x) && (x <=? sc_last sc) else zmem x (sc_chars sc).
+
+Definition enf_sc_ok (sc : en_scanner) : Prop :=
+  0 <= sc_distance sc /\
+  (if sc_use_range sc then 0 <= sc_first sc /\ sc_last sc <= 127
+   else enf_ascii (sc_chars sc) /\ sc_chars sc <> []).
+
+Lemma enf_scanner_index_first sc t :
+  enf_sc_ok sc -> enf_first (enf_byte_occ (enf_sc_pred sc) t) (en_scanner_index sc t).
+Proof.
+  intros [_ Hok]. unfold en_scanner_index, enf_sc_pred. destruct (sc_use_range sc); cbn [negb].
+  - rewrite enb_index_in_range_find. apply enf_find_first_first.
+  - destruct Hok as [HA Hne]. destruct (sc_chars sc) as [|c [|c' cs]] eqn:E; [congruence| |].
+    + eapply enf_first_ext; [|apply enf_index_byte_first]. intros k. unfold enf_byte_occ, zmem. cbn [existsb].
+      split; intros [H1 H2]; (split; [exact H1|lia]).
+    + apply enf_index_any_ascii. exact HA.
+Qed.
+
+Lemma enf_sc_pred_ascii sc x : enf_sc_ok sc -> enf_sc_pred sc x = true -> 0 <= x <= 127.
+Proof.
+  intros [_ Hok] H. unfold enf_sc_pred in H. destruct (sc_use_range sc); [lia|].
+  destruct Hok as [HA _]. apply enf_zmem_In in H. unfold enf_ascii in HA. rewrite Forall_forall in HA.
+  specialize (HA x H). lia.
+Qed.
+
+Lemma enf_sc_member_pred sc c : enf_scanner_member sc c -> enf_sc_pred sc c = true.
+Proof.
+  unfold enf_scanner_member, enf_sc_pred. destruct (sc_use_range sc); [lia|]. apply enf_zmem_In.
+Qed.
+
+Lemma enf_set_loop_spec sc m b k0 :
+  enf_sc_ok sc -> (k0 <= length (decode b))%nat ->
+  forall fuel sa, (boundary b k0 <= sa <= length b)%nat -> (length b + 1 <= fuel + sa)%nat ->
+  exists c ok, en_set_loop fuel sc m b (Z.of_nat (boundary b k0)) (Z.of_nat sa) = Ok (c, ok) /\
+    (ok = false -> forall q, (k0 <= q <= length (decode b))%nat ->
+                   (sa <= boundary b (q + Z.to_nat (sc_distance sc)))%nat -> ~ enf_fact (FSet sc m) (runes_of b) q) /\
+    (ok = true -> forall q, (k0 <= q <= length (decode b))%nat ->
+                  (sa <= boundary b (q + Z.to_nat (sc_distance sc)))%nat -> enf_fact (FSet sc m) (runes_of b) q ->
+                  c <= Z.of_nat (boundary b q)).
+Proof.
+  intros Hok Hk0. set (d := Z.to_nat (sc_distance sc)).
+  induction fuel as [|f IH]; intros sa Hsa Hf; [lia|].
+  cbn [en_set_loop]. fold d. unfold zlen.
+  (* the needle of a fact position: an ASCII byte satisfying the scanner at the boundary of q + d *)
+  assert (Hneedle : forall q, enf_fact (FSet sc m) (runes_of b) q -> (sa <= boundary b (q + d))%nat ->
+            (q + d < length (decode b))%nat /\ (boundary b (q + d) < length b)%nat /\
+            enf_byte_occ (enf_sc_pred sc) (skipn sa b) (boundary b (q + d) - sa)).
+  { intros q [_ [c [Hn Hmem]]] Hle. fold d in Hn.
+    pose proof (enf_sc_member_pred sc c Hmem) as Hp. pose proof (enf_sc_pred_ascii sc c Hok Hp) as Hc.
+    destruct (enf_rune_byte b (q + d) c Hn Hc) as [L Hb].
+    assert (Hq : (q + d < length (decode b))%nat).
+    { rewrite <- enb_runes_length. apply nth_error_Some. congruence. }
+    split; [exact Hq|]. split; [exact L|]. unfold enf_byte_occ. rewrite skipn_length, enf_nth_skipn.
+    replace (sa + (boundary b (q + d) - sa))%nat with (boundary b (q + d)) by lia. rewrite Hb. split; [lia|exact Hp]. }
+  destruct (Z.of_nat sa <? Z.of_nat (length b)) eqn:E.
+  - rewrite enb_from_nat. pose proof (enf_scanner_index_first sc (skipn sa b) Hok) as F.
+    set (offset := en_scanner_index sc (skipn sa b)) in *.
+    destruct (offset <? 0) eqn:E2.
+    + exists 0, false. split; [reflexivity|]. split; [|discriminate].
+      intros _ q Hq Hle HF. destruct (Hneedle q HF Hle) as (_ & _ & Ho). exact (enf_first_neg _ _ F ltac:(lia) _ Ho).
+    + destruct F as [[F1 _]|[o [F1 [[F2 F2'] F3]]]]; [lia|].
+      rewrite F1. replace (Z.of_nat sa + Z.of_nat o) with (Z.of_nat (sa + o)) by lia.
+      rewrite skipn_length in F2. rewrite enf_nth_skipn in F2'.
+      destruct (enf_ascii_byte_rune b (sa + o) ltac:(lia)) as (kj & Hkj & Hbj & _).
+      { pose proof (enf_sc_pred_ascii sc _ Hok F2'). lia. }
+      assert (Hk0j : (k0 <= kj)%nat) by (apply (enb_boundary_inj_le b); lia).
+      assert (Hkq : forall q, enf_fact (FSet sc m) (runes_of b) q -> (sa <= boundary b (q + d))%nat -> (kj <= q + d)%nat).
+      { intros q HF Hle. destruct (Hneedle q HF Hle) as (Hq & _ & Ho).
+        apply (enb_boundary_inj_le b); [lia|lia|].
+        destruct (Nat.le_gt_cases (sa + o) (boundary b (q + d))) as [|G]; [lia|].
+        exfalso. apply (F3 (boundary b (q + d) - sa)%nat); [lia|exact Ho]. }
+      rewrite Hbj.
+      destruct (en_candidate_start b (Z.of_nat (boundary b k0)) (Z.of_nat (boundary b kj)) d) as [c|] eqn:Ec.
+      * destruct (en_has_min_bytes b c m) eqn:Em.
+        -- exists c, true. split; [reflexivity|]. split; [discriminate|].
+           intros _ q Hq Hle HF.
+           exact (proj1 (enf_candidate_some b k0 d kj m c q ltac:(lia) Hq (Hkq q HF Hle) Ec)).
+        -- exists 0, false. split; [reflexivity|]. split; [|discriminate].
+           intros _ q Hq Hle HF.
+           pose proof (proj2 (enf_candidate_some b k0 d kj m c q ltac:(lia) Hq (Hkq q HF Hle) Ec) (proj1 HF)). congruence.
+      * replace (Z.of_nat (boundary b kj) + 1) with (Z.of_nat (S (sa + o))) by lia.
+        destruct (IH (S (sa + o)) ltac:(lia) ltac:(lia)) as (c & ok & Hr & HB & HC).
+        exists c, ok. split; [exact Hr|].
+        assert (Hnext : forall q, (k0 <= q)%nat -> enf_fact (FSet sc m) (runes_of b) q ->
+                          (sa <= boundary b (q + d))%nat -> (S (sa + o) <= boundary b (q + d))%nat).
+        { intros q Hq HF Hle. destruct (Hneedle q HF Hle) as (Hqd & _ & _).
+          pose proof (enf_candidate_none b k0 d kj q ltac:(lia) Hq Ec) as Hlt.
+          pose proof (enb_boundary_lt b kj (q + d) Hlt ltac:(lia)). lia. }
+        split.
+        -- intros Hk q Hq Hle HF. apply (HB Hk q Hq); [apply Hnext; [lia|exact HF|exact Hle]|exact HF].
+        -- intros Hk q Hq Hle HF. apply (HC Hk q Hq); [apply Hnext; [lia|exact HF|exact Hle]|exact HF].
+  - exists 0, false. split; [reflexivity|]. split; [|discriminate].
+    intros _ q Hq Hle HF. destruct (Hneedle q HF Hle) as (_ & L & _). lia.
+Qed.
+
+Lemma enf_spec_set sc m : enf_ok (FSet sc m) -> enf_spec (FSet sc m).
+Proof.
+  intros Hok b k0 Hk0. cbn [enf_ok] in Hok. cbn [en_run_filter].
+  destruct (en_has_min_bytes b (Z.of_nat (boundary b k0)) m) eqn:Em; cbn [negb].
+  - pose proof (boundary_le b k0) as Hle.
+    destruct (enf_set_loop_spec sc m b k0 Hok Hk0 (S (length b)) (boundary b k0) ltac:(lia) ltac:(lia))
+      as (c & ok & Hr & HB & HC).
+    exists c, ok. split; [exact Hr|]. split.
+    + intros Hk q Hq. apply (HB Hk q Hq). apply enb_boundary_mono. lia.
+    + intros Hk q Hq. apply (HC Hk q Hq). apply enb_boundary_mono. lia.
+  - exists 0, false. split; [reflexivity|]. split; [|discriminate].
+    intros _ q Hq [HM _]. exact (enf_min_bytes_false b k0 m Em q Hq HM).
+Qed.
